@@ -416,6 +416,10 @@ class Interp:
             return self.native(fn, args, kwargs)
         if self.models.opaque_safe(fn):
             return self.native(fn, args, kwargs)
+        if isinstance(fn, (types.WrapperDescriptorType, types.MethodDescriptorType)) and getattr(fn, "__objclass__", None) in (set, frozenset) \
+                and all(isinstance(a, (set, frozenset)) and all(type(e).__eq__ is object.__eq__ and type(e).__hash__ is object.__hash__ for e in a) for a in args):
+            # set algebra over objects with identity hashing and identity equality looks at addresses only
+            return self.native(fn, args, kwargs)
         if isinstance(fn, (types.BuiltinMethodType, types.MethodWrapperType)) and getattr(fn, "__name__", "") in self._MUTATORS:
             slf = getattr(fn, "__self__", None)
             if slf is not None and not isinstance(slf, type):
@@ -477,7 +481,16 @@ class Interp:
         except Exception as e:  # the real code raised: becomes an interpreted exception
             raise PyExc(e, f"native:{getattr(fn, '__qualname__', repr(fn))}")
 
+    def note_set_order(self, x):
+        """the order of a set of objects hashed by identity follows their addresses, i.e. the allocation history of the process:
+        whatever turns that order into a sequence is not a function of the input (C12)"""
+        if isinstance(x, (set, frozenset)) and len(x) > 1 and any(type(e).__hash__ is object.__hash__ for e in x):
+            self.ctx.frame_writes.append("a set of objects hashed by identity is turned into a sequence: the order depends on memory addresses, not on the input")
+
     def instantiate(self, cls, args, kwargs):
+        if isinstance(cls, type) and issubclass(cls, (list, tuple)):
+            for a in args[:1]:
+                self.note_set_order(a)
         symbolic_args = any(self.tainted(a) for a in args) or any(self.tainted(a) for a in kwargs.values())
         if not symbolic_args and not self.models.force_interpret_class(cls):
             return self.native(cls, args, kwargs)
@@ -920,6 +933,7 @@ class Interp:
         m = self.models.iter_model(self, it)
         if m is not None:
             return m
+        self.note_set_order(it)
         # class with a repo metaclass __iter__, or instance with repo __iter__
         meth = _type_lookup(it, "__iter__")
         if meth is not None and is_repo_function(meth):
